@@ -124,6 +124,21 @@ package parser
 //@   requires pi: p.curr.Type == tokT(ppos) && p.next.Type == tokT(ppos + 1) && tokOK(p.curr.Type, p.curr.Value) && tokOK(p.next.Type, p.next.Value) && 0 <= p.lex.position && p.lex.position <= len(p.lex.expression)
 //@   ensures pi: result2 == nil ==> p.curr.Type == tokT(ppos) && p.next.Type == tokT(ppos + 1) && tokOK(p.curr.Type, p.curr.Value) && tokOK(p.next.Type, p.next.Value) && 0 <= p.lex.position && p.lex.position <= len(p.lex.expression)
 //@   ensures[C04] close: result2 == nil ==> tokT(ppos - 1) == const("lexer.CloseSqBraceToken") && ppos > old(ppos) && result0 != nil
+//@   ensures[C12] start.given.SliceNode: result2 == nil && isType(result0, "*github.com/woodsbury/jmespath/internal/parser.SliceNode") && old(p.curr.Type) == const("lexer.IntegerLiteralToken") ==> as(result0, "parser.SliceNode").Start == atoiVal(old(p.curr.Value))
+//@   ensures[C12] start.absent.SliceNode: result2 == nil && isType(result0, "*github.com/woodsbury/jmespath/internal/parser.SliceNode") && old(p.curr.Type) == const("lexer.ColonToken") ==> as(result0, "parser.SliceNode").Start == ite(1 < 0, 9223372036854775807, 0)
+//@   ensures[C12] stop.absent.SliceNode: result2 == nil && isType(result0, "*github.com/woodsbury/jmespath/internal/parser.SliceNode") && tokT(old(ppos) + ite(old(p.curr.Type) == const("lexer.ColonToken"), 1, 2)) != const("lexer.IntegerLiteralToken") ==> as(result0, "parser.SliceNode").Stop == ite(1 < 0, 0 - 9223372036854775808, 9223372036854775807)
+//@   ensures[C12] start.given.SliceCurrentNode: result2 == nil && isType(result0, "*github.com/woodsbury/jmespath/internal/parser.SliceCurrentNode") && old(p.curr.Type) == const("lexer.IntegerLiteralToken") ==> as(result0, "parser.SliceCurrentNode").Start == atoiVal(old(p.curr.Value))
+//@   ensures[C12] start.absent.SliceCurrentNode: result2 == nil && isType(result0, "*github.com/woodsbury/jmespath/internal/parser.SliceCurrentNode") && old(p.curr.Type) == const("lexer.ColonToken") ==> as(result0, "parser.SliceCurrentNode").Start == ite(1 < 0, 9223372036854775807, 0)
+//@   ensures[C12] stop.absent.SliceCurrentNode: result2 == nil && isType(result0, "*github.com/woodsbury/jmespath/internal/parser.SliceCurrentNode") && tokT(old(ppos) + ite(old(p.curr.Type) == const("lexer.ColonToken"), 1, 2)) != const("lexer.IntegerLiteralToken") ==> as(result0, "parser.SliceCurrentNode").Stop == ite(1 < 0, 0 - 9223372036854775808, 9223372036854775807)
+//@   ensures[C12] start.given.SliceStepNode: result2 == nil && isType(result0, "*github.com/woodsbury/jmespath/internal/parser.SliceStepNode") && old(p.curr.Type) == const("lexer.IntegerLiteralToken") ==> as(result0, "parser.SliceStepNode").Start == atoiVal(old(p.curr.Value))
+//@   ensures[C12] start.absent.SliceStepNode: result2 == nil && isType(result0, "*github.com/woodsbury/jmespath/internal/parser.SliceStepNode") && old(p.curr.Type) == const("lexer.ColonToken") ==> as(result0, "parser.SliceStepNode").Start == ite(as(result0, "parser.SliceStepNode").Step < 0, 9223372036854775807, 0)
+//@   ensures[C12] stop.absent.SliceStepNode: result2 == nil && isType(result0, "*github.com/woodsbury/jmespath/internal/parser.SliceStepNode") && tokT(old(ppos) + ite(old(p.curr.Type) == const("lexer.ColonToken"), 1, 2)) != const("lexer.IntegerLiteralToken") ==> as(result0, "parser.SliceStepNode").Stop == ite(as(result0, "parser.SliceStepNode").Step < 0, 0 - 9223372036854775808, 9223372036854775807)
+//@   ensures[C12] start.given.SliceStepCurrentNode: result2 == nil && isType(result0, "*github.com/woodsbury/jmespath/internal/parser.SliceStepCurrentNode") && old(p.curr.Type) == const("lexer.IntegerLiteralToken") ==> as(result0, "parser.SliceStepCurrentNode").Start == atoiVal(old(p.curr.Value))
+//@   ensures[C12] start.absent.SliceStepCurrentNode: result2 == nil && isType(result0, "*github.com/woodsbury/jmespath/internal/parser.SliceStepCurrentNode") && old(p.curr.Type) == const("lexer.ColonToken") ==> as(result0, "parser.SliceStepCurrentNode").Start == ite(as(result0, "parser.SliceStepCurrentNode").Step < 0, 9223372036854775807, 0)
+//@   ensures[C12] stop.absent.SliceStepCurrentNode: result2 == nil && isType(result0, "*github.com/woodsbury/jmespath/internal/parser.SliceStepCurrentNode") && tokT(old(ppos) + ite(old(p.curr.Type) == const("lexer.ColonToken"), 1, 2)) != const("lexer.IntegerLiteralToken") ==> as(result0, "parser.SliceStepCurrentNode").Stop == ite(as(result0, "parser.SliceStepCurrentNode").Step < 0, 0 - 9223372036854775808, 9223372036854775807)
+//@   ensures[C12 C01] index.value.IndexNode: result2 == nil && isType(result0, "*github.com/woodsbury/jmespath/internal/parser.IndexNode") ==> as(result0, "parser.IndexNode").Value == atoiVal(old(p.curr.Value)) && old(p.curr.Type) == const("lexer.IntegerLiteralToken")
+//@   ensures[C12 C01] index.value.IndexCurrentNode: result2 == nil && isType(result0, "*github.com/woodsbury/jmespath/internal/parser.IndexCurrentNode") ==> as(result0, "parser.IndexCurrentNode").Value == atoiVal(old(p.curr.Value)) && old(p.curr.Type) == const("lexer.IntegerLiteralToken")
+//@   ensures[C12] projects: result2 == nil ==> result1 == (isType(result0, "*github.com/woodsbury/jmespath/internal/parser.SliceNode") || isType(result0, "*github.com/woodsbury/jmespath/internal/parser.SliceCurrentNode") || isType(result0, "*github.com/woodsbury/jmespath/internal/parser.SliceStepNode") || isType(result0, "*github.com/woodsbury/jmespath/internal/parser.SliceStepCurrentNode"))
 
 //@ func parser.selectArray
 //@   tags C04 C09
@@ -160,6 +175,7 @@ package parser
 //@   ensures pi: result1 == nil ==> p.curr.Type == tokT(ppos) && p.next.Type == tokT(ppos + 1) && tokOK(p.curr.Type, p.curr.Value) && tokOK(p.next.Type, p.next.Value) && 0 <= p.lex.position && p.lex.position <= len(p.lex.expression)
 //@   ensures[C09] progress: result1 == nil ==> ppos > old(ppos) && result0 != nil
 //@   at advance2#1 assert[C04 C19] binding: p.curr.Type == const("lexer.VariableToken") && p.next.Type == const("lexer.AssignToken")
+//@   ensures[C19 C10] body.extends: result1 == nil ==> precOf(tokT(ppos)) <= 1 || !infixTok(tokT(ppos))
 //@   loop 1
 //@     invariant[C04 C01 C17] linear: pendingOnly()
 //@     invariant fresh(variables) && variables != nil && (forall k Int :: hasKey(variables, k) ==> getKey(variables, k) != nil)
@@ -348,8 +364,10 @@ package parser
 //@ func parseStringLiteral
 //@   tags C16 C04 C03
 //@   requires delimited: len(s) >= 2
+//@   ensures[C16] shrinks: result1 == nil && isType(result0, "*github.com/woodsbury/jmespath/internal/parser.StringNode") ==> len(as(result0, "parser.StringNode").Value) <= len(s) - 2
 //@   loop 1
 //@     invariant len(v) >= 1
+//@     invariant[C16] written: bldLen(b) + len(v) + 1 <= len(s) - 2
 //@   ensures node: result1 == nil && result0 != nil
 
 //@ func Parse
